@@ -351,6 +351,8 @@ def _array(ex, path, args, kwargs, node, fn):
     v = args[0]
     if isinstance(v, Arr):
         return v
+    if isinstance(v, Obj) and v.cls in ("Quantity", "Time"):
+        return v
     if isinstance(v, PyList) and v.tail is None:
         if not v.items:
             return Arr([0], lambda k: z3.RealVal(0), "real")
@@ -474,6 +476,8 @@ FINITE = z3.Function("finite", z3.RealSort(), z3.BoolSort())
                              "so finiteness of an *input* value is a ghost fact; both outcomes stay reachable)")
 def _isfinite(ex, path, args, kwargs, node, fn):
     a = args[0]
+    if isinstance(a, Obj) and a.cls == "Quantity":
+        a = a.fields["value"]
     fin = getattr(a, "finite", None)
     if fin is not None:
         return Arr(a.shape, lambda *k: fin(*k), "bool")
@@ -621,3 +625,61 @@ def _histogram(ex, path, args, kwargs, node, fn):
     H.facts = facts
     path.assume(*facts)
     return PyList([H, edges], None, True)
+
+
+@model("<Arr>.argsort", "numpy.argsort", doc="argsort(x): a permutation p of 0..n-1 with x[p[k]] <= x[p[k+1]] (tie order unspecified; "
+                                              "deterministic: two calls on the same array agree)")
+def _argsort(ex, path, args, kwargs, node, fn):
+    a, _u = _unwrap_q(args[0])
+    if a.ndim != 1:
+        raise Unsupported("argsort of n-d array")
+    cache = path.ghost.setdefault("argsort_cache", {})
+    if id(a) in cache:
+        return cache[id(a)][1]
+    n = a.shape[0]
+    perm = fresh_fn("argsort", z3.IntSort(), z3.IntSort())
+    inv = fresh_fn("argsort_inv", z3.IntSort(), z3.IntSort())
+    r = Arr([n], lambda k: perm(to_z3(k)), "int", "argsort")
+    k = z3.Int(fresh_name("k"))
+    i = z3.Int(fresh_name("i"))
+    r.facts = list(getattr(a, "facts", [])) + [
+        q_forall([k], b_and(0 <= k, k < n), b_and(0 <= perm(k), perm(k) < n, inv(perm(k)) == k), pats=[perm(k)]),
+        q_forall([i], b_and(0 <= i, i < n), b_and(0 <= inv(i), inv(i) < n, perm(inv(i)) == i), pats=[inv(i)]),
+        q_forall([k], b_and(0 <= k, k < n - 1), a.at(perm(k)) <= a.at(perm(k + 1)), pats=[perm(k)]),
+    ]
+    r.perm_inv = inv
+    r.injective = True
+    path.assume(*r.facts)
+    cache[id(a)] = (a, r)
+    return r
+
+
+@model("<Arr>.all", doc="x.all(axis=0) of a 2-d bool array: column-wise conjunction")
+def _all_axis(ex, path, args, kwargs, node, fn):
+    a = args[0]
+    ax = kwargs.get("axis", args[1] if len(args) > 1 else None)
+    if a.ndim == 2 and ax == 0:
+        i = z3.Int(fresh_name("i"))
+        return Arr([a.shape[1]], lambda c: q_forall([i], b_and(0 <= i, i < a.shape[0]), a.at(i, c)), "bool")
+    if a.ndim == 1 and ax is None:
+        i = z3.Int(fresh_name("i"))
+        return q_forall([i], b_and(0 <= i, i < a.shape[0]), a.at(i))
+    raise Unsupported("all() with this axis")
+
+
+@model("numpy.all")
+def _np_all(ex, path, args, kwargs, node, fn):
+    v = args[0]
+    if isinstance(v, Arr):
+        return _all_axis(ex, path, [v], kwargs, node, fn)
+    from .symexec import truth as _t
+    return _t(v)
+
+
+@model("numpy.diag", doc="diag(v): the diagonal matrix of a 1-d array")
+def _diag(ex, path, args, kwargs, node, fn):
+    a = args[0]
+    if a.ndim == 1:
+        zero = z3.RealVal(0) if a.dtype == "real" else z3.IntVal(0)
+        return Arr([a.shape[0], a.shape[0]], lambda i, j: z3.If(to_z3(i) == to_z3(j), a.at(i), zero), a.dtype)
+    raise Unsupported("diag of a matrix")
